@@ -381,6 +381,46 @@ def compose_shard(seed, n_examples, budget=40000):
     return core.finish_shard(stats, v, replay)
 
 
+def retry_shard(b, p):
+    """A history with a refusal in it: the operation is first attempted at a bitlength too small for its operands (refused),
+    the program catches that, raises runtime.bitlength and repeats the SAME operation on the SAME operand objects. The result of
+    the repeated, now valid, call must be pinned down like that of a first call (complete witness search in a small field)."""
+    stats = core.Stats()
+    found = {}
+    lim = 1 << b
+    for name in ("floordiv", "mod", "divmod", "lt", "le", "gt", "ge", "rshift", "to_bits", "check_positive", "abs", "truediv"):
+        op = ir.OPS[name]
+        nargs = len(op.types)
+        for ts in opgrid.type_combos(name):
+            if any(t not in "Ii" for t in ts) or ts[0] != "I":
+                continue
+            for vals in ([(lim + 1, lim + 1), (lim + 3, lim - 1), (2 * lim + 1, 3), (lim + 2, lim)] if nargs == 2 else [(lim + 1,), (2 * lim + 1,)]):
+                stmts = [["in", "priv" if i == 0 else "pub", t, v] if t == "I" else ["const", v] for i, (t, v) in enumerate(zip(ts, vals))]
+                refs = list(range(nargs))
+                prog = {"cfg": {"p": p, "b": b, "r": 0, "ignore": False},
+                        "stmts": stmts + [["op", name, refs, "try"], ["setb", b + 2], ["op", name, refs]], "retry": True}
+                m = ir.run_program(prog)
+                stats.case([name, "".join(ts), list(vals), p, b], m.raised is None, ("retry-after-refusal:" + name, "retry:" + ("ran" if m.raised is None else "refused-again")), sample_cap=1)
+                if m.raised is not None:
+                    continue
+                status, nodes, cex = analyse(m, nargs, budget=60000, candidates=lambda v: cand_real(m, v))
+                if cex is not None:
+                    why, cex2 = explain(m, nargs, 60000, candidates=lambda v: cand_real(m, v))
+                    if why and why != "inconclusive" and all(k in core.load_known("C02") for k in why.split("+")):
+                        stats.excluded[why] += 1
+                        continue
+                    if why == "inconclusive":
+                        stats.inconclusive["explain-budget"] += 1
+                        continue
+                    cex = cex2 or cex
+                    key = "%s.%s.retry" % (name, "".join(ts))
+                    found.setdefault(key, {"case": dict(prog, pin_known=not why), "key": key,
+                                           "msg": "%s%r on %s, refused at bitlength %d and repeated at bitlength %d on the same operands: result %s is %d honestly but the constraints also admit %s" % (
+                                               name, tuple(vals), "".join(ts), b, b + 2, cex["path"], ir.centered(cex["honest"], m.p), cex["other"])})
+    stats.violations = list(found.values())
+    return stats
+
+
 def replay(case):
     if case.get("history"):
         stmts = case["stmts"]
@@ -448,6 +488,8 @@ def run(ctx):
     total.merge_json(core.run_shards("harness.checks.c02", "history_shard",
                                      [dict(cells=cs[i::16], b=hb, p=hp) for i in range(16)]).to_json())
     total.merge_json(core.run_shards("harness.checks.c02", "compose_shard", comp).to_json())
+    total.merge_json(core.run_shards("harness.checks.c02", "retry_shard", [dict(b=2, p=1031), dict(b=3, p=4099)] if ctx.tier == "quick" else
+                                     [dict(b=2, p=1031), dict(b=3, p=4099), dict(b=4, p=16411), dict(b=2, p="bn128")]).to_json())
     total.extra["grids"] = grids
     total.extra["cells"] = len(cs)
     ctx.stats = total
